@@ -176,6 +176,7 @@ func ruleConfirmCount() *Rule {
 			out = append(out, freshCounterMode(p, id, "(*Raft).sendAppendEntriesToPeers", "(*Raft).sendAppendEntries", 2, true)...)
 			out = append(out, counterNotForwarded(p, id, "(*Raft).sendAppendEntries", 2)...)
 			out = append(out, spawnOnlyForOthers(p, id, "(*Raft).sendAppendEntriesToPeers", root)...)
+			out = append(out, everyReplyCounts(p, id)...)
 			return out
 		},
 	}
